@@ -41,7 +41,11 @@ type schedWorld struct {
 	notReady  bool // the stage's ready flag has been cleared at least once (Recover)
 }
 
-func newSchedWorld(files []*sFile) *schedWorld {
+func newSchedWorld(files []*sFile) *schedWorld { return newSchedWorldPre(files, nil) }
+
+// newSchedWorldPre: pre prepares the sandbox (e.g. receive-log records of an earlier run) before
+// the stage is created.
+func newSchedWorldPre(files []*sFile, pre func(w *rw)) *schedWorld {
 	vh.Epoch2011()
 	root := vh.NewSandbox()
 	sw := &schedWorld{root: root, w: newRW(root), errs: map[string]error{}, files: map[string]*sFile{}}
@@ -68,6 +72,9 @@ func newSchedWorld(files []*sFile) *schedWorld {
 				sw.lockSplit = true
 			}
 		}
+	}
+	if pre != nil {
+		pre(sw.w)
 	}
 	sw.w.start() // before the scheduler is active: the handler goroutines start natively
 	vos.Hook = func(op, p1, p2 string) error {
@@ -473,6 +480,53 @@ func TestC04Sched(t *testing.T) {
 		fmt.Sprintf("all interleavings with <= %d preemptions of two connections delivering a single-part file and its successor (announced predecessor = the first file), with the stage's validators, finalizer and the goroutines that push onto the finalize chain", b))
 }
 
+// scenarioSupersededDuringLookup: version 1 of b announces a predecessor p that the receiver
+// knows only from its receive log (an earlier run). While the finalizer looks p up in the log,
+// a second connection delivers version 2 of b. What ends up in the final directory must carry
+// the hash the log records for it.
+func scenarioSupersededDuringLookup(bound int) *vh.SchedScenario {
+	return &vh.SchedScenario{Name: "superseded-while-predecessor-is-looked-up", Bound: bound, Build: func(x *vrt.Sched) func(*vrt.Sched) (string, string, string) {
+		files := []*sFile{
+			{Key: "b1", Name: "b", Prev: "p", Data: "CCCCDD", Cuts: []int64{0, 6}},
+			{Key: "b2", Name: "b", Prev: "p", Data: "ccccdd", Cuts: []int64{0, 6}},
+		}
+		sw := newSchedWorldPre(files, func(w *rw) {
+			c04Prelog(w, c04Scenario{Prelog: map[string]time.Duration{"p": time.Minute}})
+		})
+		// version 2 is transmitted only after the reception of version 1 has returned (a sender never
+		// transmits two versions of a file at once), but it races with version 1's validation,
+		// predecessor look-up and finalization
+		v1in := make(chan struct{})
+		x.Go("conn1", func() { sw.recv("b1", 0, false); close(v1in) })
+		x.Go("conn2", func() { <-v1in; sw.recv("b2", 0, false) })
+		return func(x *vrt.Sched) (string, string, string) {
+			defer sw.close()
+			if x.Deadlock != "" || x.Diverged != "" {
+				return "", "", ""
+			}
+			final, log, _ := sw.finish()
+			var mine []string
+			for _, rec := range log {
+				if strings.HasPrefix(rec, "b|") {
+					mine = append(mine, rec)
+				}
+			}
+			if v := sw.c01FinalOracle(final, mine); v != "" {
+				return v + fmt.Sprintf(" (log=%v)", log), sw.class(), ""
+			}
+			// (a stale validation of version 1 may mark the name failed: the sender is then told so and
+			// sends version 2 again - no integrity matter. What must not happen is a positive answer
+			// without version 2 in place.)
+			status := sw.w.st.GetFileStatus("b", sw.ftime())
+			want := "b " + sw.files["b2"].hash()
+			if (status == sts.ConfirmPassed || status == sts.ConfirmWaiting) && (len(final) != 1 || final[0] != want) {
+				return fmt.Sprintf("the poll for b answers %d after version 2 was acknowledged, yet the final directory does not hold version 2: final=%v log=%v errors=%v", status, final, log, sw.errs), sw.class(), ""
+			}
+			return "", "", fmt.Sprintf("final=%v records=%d", final, len(mine))
+		}
+	}}
+}
+
 func runSchedScenarios(t *testing.T, prop, partName string, scs []*vh.SchedScenario, bound string) {
 	rep := vh.NewReport(prop, partName)
 	defer rep.Write()
@@ -499,7 +553,7 @@ func TestC09Sched(t *testing.T) {
 func TestC01Sched(t *testing.T) {
 	b := 2
 	bh := 1 // the held-file scenario has many more scheduling points (finalizer, timers): thorough tier only
-	scs := []*vh.SchedScenario{scenarioNewVersion(b), scenarioTwoParts(false, b)}
+	scs := []*vh.SchedScenario{scenarioNewVersion(b), scenarioTwoParts(false, b), scenarioSupersededDuringLookup(1)}
 	if vh.Thorough() {
 		scs = append(scs, scenarioHeldVsNewVersion(bh))
 	}
@@ -631,7 +685,7 @@ func TestSchedRace(t *testing.T) {
 	n := 40
 	for _, sc := range []*vh.SchedScenario{
 		scenarioTwoParts(false, 0), scenarioTwoParts(true, 0), scenarioTwoFiles(false, 0), scenarioTwoFiles(true, 0),
-		scenarioNewVersion(0), scenarioChainTwoConnections(0), scenarioDuplicateOnTwoConnections(false, 0), scenarioDuplicateOnTwoConnections(true, 0), scenarioHeldVsNewVersion(0), scenarioCleanVsTransfer(false, 0), scenarioCleanVsTransfer(true, 0), scenarioRecoveryWindow(0),
+		scenarioNewVersion(0), scenarioSupersededDuringLookup(0), scenarioChainTwoConnections(0), scenarioDuplicateOnTwoConnections(false, 0), scenarioDuplicateOnTwoConnections(true, 0), scenarioHeldVsNewVersion(0), scenarioCleanVsTransfer(false, 0), scenarioCleanVsTransfer(true, 0), scenarioRecoveryWindow(0),
 	} {
 		vh.FreeRunSched(t, rep, sc, n)
 	}
